@@ -186,8 +186,8 @@ func checkMain(args []string) {
 			continue // verified where it is inlined
 		}
 		for _, f := range fns {
-			if f.TypeParams().Len() > 0 && len(f.TypeArgs()) == 0 {
-				continue // generic body: its instances are verified
+			if f.TypeParams().Len() > 0 && len(f.TypeArgs()) == 0 && len(fns) > 1 {
+				continue // generic body: its instances are verified instead
 			}
 			rep := eng.VerifyFunc(f)
 			reports = append(reports, rep)
